@@ -714,8 +714,6 @@ def model_op(case, obs):
         return None
     if case["kind"] == "quote":
         return {"op": "sqlquote", "name": V.enc_str(case["table"]), "rest": V.enc_str(" (")}
-    if any(op[0] == "r" for op in case["ops"]):
-        return None      # several writer sessions on one file: covered by the real-code oracle, not by the model
     run0 = obs["runs"][0]
     hist = []
     for op, st in zip(case["ops"], run0["steps"]):
